@@ -274,7 +274,7 @@ func notJoined(rid uint32, kind string) *Outcome {
 // Build resolves the step against the current model and returns the request to send.
 func (m *Model) Build(st *Step, ci int, rid uint32) *Pending {
 	c := m.conn(ci)
-	ts := timestamppb.Now()
+	ts := m.stamp(ci)
 	if st.RID != 0 {
 		rid = st.RID
 	}
@@ -399,6 +399,7 @@ func (m *Model) Build(st *Step, ci int, rid uint32) *Pending {
 			s := c.Session
 			_, _ = c, s
 			if s == nil {
+				m.Tainted[ci] = true
 				return notJoined(0, "pose")
 			}
 			o := &Outcome{Kind: "pose", Props: []string{"C11", "C05", "C02"}}
@@ -599,6 +600,7 @@ func (m *Model) Build(st *Step, ci int, rid uint32) *Pending {
 			s := c.Session
 			_, _ = c, s
 			if s == nil {
+				m.Tainted[ci] = true
 				return unjoinedMaybeBad(0, typ == 0 || ent == 0, "comp_update")
 			}
 			o := &Outcome{Kind: "comp_update", Props: []string{"C12", "C13", "C02"}}
